@@ -47,6 +47,8 @@ RULE = ("messages generated from the dumped metadata (every message type, mandat
         "element-free sources into shallow targets; API-built float fields with an "
         "explicit output precision 0..9 at top level and inside nested group elements (values whose rendering depends on "
         "the precision). "
+        "SEQ cases: FIX42UTEST and FIX44 linked into ONE harness process, CLONE/COPY/MOVE of messages of both schemas "
+        "with EQUAL MsgTypes interleaved on the same thread (ABAB, AABB, ...) plus controls with different types. "
         "non-trivial = every stage OK and at least 8 fields in the source; distinct = distinct case lines")
 
 SOH = b"\x01"
@@ -60,13 +62,14 @@ _state = {}
 
 
 def build(tier):
-    built = G.build_codec(schemas(tier))          # metadata (+ the shared harness it is dumped by)
-    exes = {}
-    for s in schemas(tier):
-        exes[s] = B.harness("h_c11", runtime=None, schema=s)
-    built = dict(built)
-    built["exes"] = exes
-    built["impl"] = [exes[schemas(tier)[0]]]
+    # metadata of BOTH schemas in every tier (dumped by the shared harness), and ONE harness process
+    # that links FIX42UTEST and FIX44 (-DC11_BOTH): a case selects its schema with "@fix44 ", and
+    # SEQ cases run operations of both schemas in a row in the same process / on the same thread
+    built = dict(G.build_codec(("utest", "fix44")))
+    d44, objs44, _, _ = B.schema_objs("fix44", "asan")
+    exe = B.harness("h_c11", runtime=None, schema="utest", extra=["-DC11_BOTH", "-I" + d44], extra_link=objs44)
+    built["exes"] = {"utest": exe, "fix44": exe}
+    built["impl"] = [exe]
     import os
     d = os.path.join(B.CACHE, "codec")
     os.makedirs(d, exist_ok=True)
@@ -79,12 +82,7 @@ def build(tier):
 
 
 def run_impl(built, cases, tier):
-    # a case of a schema that is not built in this tier (known-finding witness on FIX44 in the
-    # quick tier) is skipped on both sides
-    default = next(iter(built["exes"]))
-    have = [k for k, c in enumerate(cases) if G.schema_of(c.line, default)[0] in built["exes"]]
-    res = ["SKIP schema not built in this tier"] * len(cases)
-    # the memory errors of the known findings kill the process: no symbolisation (slow on a loaded
+    # the memory errors of the (repaired) findings kill the process: no symbolisation (slow on a loaded
     # machine; the crash text is reduced to CRASH anyway), generous per-case timeout
     import os
     saved = {k: os.environ.get(k) for k in ("ASAN_OPTIONS", "UBSAN_OPTIONS")}
@@ -92,17 +90,27 @@ def run_impl(built, cases, tier):
                                   "detect_stack_use_after_return=0:symbolize=0")
     os.environ["UBSAN_OPTIONS"] = "print_stacktrace=0:halt_on_error=1:symbolize=0"
     try:
-        _render_table(built, [cases[k] for k in have], default)
-        out = G.run_impl_multi(built, [cases[k] for k in have], tier, per_case_timeout=90)
+        _render_table(built, cases, "utest")
+        # one harness process per schema for the plain cases, a fresh process for every SEQ case: a case's
+        # result must not depend on what ran before it in the process (a replay runs it alone)
+        res = [None] * len(cases)
+        groups = {}
+        for k, c in enumerate(cases):
+            if c.line.startswith("SEQ "):
+                res[k] = core_run_lines(built["impl"], [c.line], per_case_timeout=90)[0]
+            else:
+                groups.setdefault(G.schema_of(c.line, "utest")[0], []).append(k)
+        for _, ks in sorted(groups.items()):
+            out = core_run_lines(built["impl"], [cases[k].line for k in ks], per_case_timeout=90)
+            for k, r in zip(ks, out):
+                res[k] = r
+        return res
     finally:
         for k, v in saved.items():
             if v is None:
                 os.environ.pop(k, None)
             else:
                 os.environ[k] = v
-    for k, r in zip(have, out):
-        res[k] = r
-    return res
 
 
 def _marked(fs, out):
@@ -117,8 +125,11 @@ def _render_table(built, cases, default):
     """REAL renderings (harness op RENDER: print() of a fresh, never copied field) of the API-built
     float states "~p~text" occurring in the cases, appended to the driver's table file."""
     todo = {}
+    lines = []
     for c in cases:
-        schema, rest = G.schema_of(c.line, default)
+        lines += c.line[4:].split(" || ") if c.line.startswith("SEQ ") else [c.line]
+    for line in lines:
+        schema, rest = G.schema_of(line, default)
         w = rest.split(" ")
         if w[0] not in OPS + ("SCOPY", "SMOVE"):
             continue
@@ -134,7 +145,8 @@ def _render_table(built, cases, default):
                 todo.setdefault(schema, {})[val] = fnum
     for schema, items in todo.items():
         pairs = sorted(items.items())
-        out = core_run_lines([built["exes"][schema]], ["RENDER %d %s" % (f, v.hex()) for v, f in pairs])
+        px = "" if schema == default else "@%s " % schema
+        out = core_run_lines(built["impl"], [px + "RENDER %d %s" % (f, v.hex()) for v, f in pairs])
         with open(built["rtable"], "a") as fh:
             for (v, f), r in zip(pairs, out):
                 if r.startswith("OK "):
@@ -297,6 +309,29 @@ def gen_cases(rng, tier):
             msg = noel.message()
             cs.append(Case(px + "SCOPY " + G.ser_msg(*msg), "shallow-copy"))
             cs.append(Case(px + "DSCOPY s " + wire_of(meta, msg).hex(), "shallow-copy-decoded"))
+        # two schemas in one process, equal MsgTypes, operations interleaved on the same thread: anything
+        # fix8 remembers between calls (per type, not per metadata context) shows on the second schema
+        if schema == default and "fix44" in built["metas"]:
+            m2 = built["metas"]["fix44"]
+            common = sorted(set(meta.msgs) & set(m2.msgs))
+            ga = G.MsgGen(meta, rng, p_opt=0.2, max_elems=2, shuffle=False)
+            gb = G.MsgGen(m2, rng, p_opt=0.15, max_elems=2, shuffle=False)
+
+            def sub(which, op, mt):
+                if which == "A":
+                    return "@utest %s %s" % (op, G.ser_msg(*ga.message(mt, max_wire=3000)))
+                return "@fix44 %s %s" % (op, G.ser_msg(*gb.message(mt, max_wire=3000)))
+            for j in range(24 * k):
+                mt = common[j % len(common)] if j < len(common) else rng.choice(common)
+                pat = ("ABAB", "AABB", "BABA", "BBAA")[j % 4]
+                ops = ["CLONE"] * 4 if j % 3 else [rng.choice(OPS) for _ in range(4)]
+                if "CLONE" not in ops:
+                    ops[rng.randrange(4)] = "CLONE"
+                cs.append(Case("SEQ " + " || ".join(sub(w, o, mt) for w, o in zip(pat, ops)), "two-schema-same-type"))
+            for j in range(6 * k):
+                a, b2 = rng.sample(common, 2)
+                cs.append(Case("SEQ " + " || ".join(sub(w, "CLONE", t2) for w, t2 in zip("ABAB", (a, b2, b2, a))),
+                               "two-schema-different-types"))
         # API-built float fields with an explicit output precision 0..9 (Field<fp_type,N>(value, p)):
         # the copy must render like the original.  Value texts "~p~<decimal>" (see harness make_field /
         # coq/C11/Precision.v), decimals chosen so that the rendering depends on the precision.
@@ -457,6 +492,8 @@ def _unordered(meta, owner, mb, deep=True):
 
 
 def _source(case, r):
+    if case.line.startswith("SEQ "):
+        return None
     st = r.split(" | ")
     if not st or not st[0].startswith("OK T="):
         return None
@@ -545,6 +582,8 @@ CLASSIFIERS = {"unordered-positions": c_unordered, "unknown-dropped": c_unknown}
 
 
 def nontrivial(case, r):
+    if case.line.startswith("SEQ "):
+        return all(nontrivial(Case(c, "sub"), x) or x.startswith("OK") for c, x in zip(case.line[4:].split(" || "), r.split(" || ")))
     st = r.split(" | ")
     if len(st) < 4 or not all(s.startswith("OK") for s in st):
         return False
